@@ -13,6 +13,10 @@ CLAIMED = {
    text='All triples of the binary octahedral group, of a 30-element conjugated icosahedral sub-alphabet and of a generic coset, all pairs over group elements and exactly representable non-unit lattice quaternions, '
         'every non-zero alphabet element for the inverse, and every element in both storage orders are executed on the real operators and compared with a reference Hamilton product. Finite closed groups make the universally quantified algebra laws a finite table.',
    note='Bounded to the alphabets; 1e-12 tolerance; known finding: non-unit inverse (test-pinned). Trusted: mc/ref/quat.py.'),
+ 'C02': dict(cat='exploration', tech='exhaustive grid walk: designed finite alphabet of rotation matrices x all methods x all routes, on the real code',
+   text='About 1 350 rotation matrices per menu entry (17 axes x 47 angles including 0, +-1e-1..1e-12, pi-1e-1..1e-12, pi; the matrices of the binary octahedral and icosahedral groups, a conjugate and a coset; exactly symmetric half-turns) '
+        'x 9 method/version/threshold choices x 5 routes, every combination executed; the returned quaternion is rebuilt into a matrix by the reference and compared. Every Shepperd pivot branch, trace<=0, angle 0 and angle pi classes are required non-empty.',
+   note='Lattice of angles/axes, not all of SO(3); tolerances 1e-9 (Shepperd, Bar-Itzhack) and 1e-7 below pi-1e-6 (closed-form methods). Trusted: mc/ref/quat.py.'),
 }
 PENDING_REASON = 'check not built yet in this session (planned in DESIGN.md section 3); not claimed until it runs clean'
 
